@@ -1,0 +1,95 @@
+//go:build verif
+
+// Verification hooks (add-only, compiled only with the build tag "verif").
+// Thin exported wrappers over unexported fields and functions of this package;
+// no behaviour of the package changes.
+
+package prefilter
+
+func verifCopyMasks(m *[MaxFingerprintLen][32]byte) [][]byte {
+	out := make([][]byte, MaxFingerprintLen)
+	for i := range m {
+		out[i] = append([]byte(nil), m[i][:]...)
+	}
+	return out
+}
+
+func verifCopyBuckets(b [][]int) [][]int {
+	out := make([][]int, len(b))
+	for i := range b {
+		out[i] = append([]int(nil), b[i]...)
+	}
+	return out
+}
+
+func verifCopyPatterns(p [][]byte) [][]byte {
+	out := make([][]byte, len(p))
+	for i := range p {
+		out[i] = append([]byte(nil), p[i]...)
+	}
+	return out
+}
+
+// VerifMasks dumps the fingerprint length, the nibble tables (4 positions x 32
+// entries each), the bucket table, the patterns and minLen of a slim Teddy.
+func (t *Teddy) VerifMasks() (fingerprintLen int, lo, hi [][]byte, buckets [][]int, patterns [][]byte, minLen int) {
+	return int(t.masks.fingerprintLen), verifCopyMasks(&t.masks.loMasks), verifCopyMasks(&t.masks.hiMasks),
+		verifCopyBuckets(t.buckets), verifCopyPatterns(t.patterns), t.minLen
+}
+
+// VerifFindScalar is findScalar (the < 16 byte path of Find) on haystack[start:].
+func (t *Teddy) VerifFindScalar(haystack []byte, start int) int {
+	return t.findScalar(haystack[start:], start)
+}
+
+// VerifFindMatchScalar is findMatchScalar on haystack[start:].
+func (t *Teddy) VerifFindMatchScalar(haystack []byte, start int) (int, int) {
+	return t.findMatchScalar(haystack[start:], start)
+}
+
+// VerifScalarCandidate is findScalarCandidate (pure Go candidate finder).
+func (t *Teddy) VerifScalarCandidate(haystack []byte) (int, uint8) {
+	return t.findScalarCandidate(haystack)
+}
+
+// VerifSIMDCandidate is findSIMD (assembly when the CPU supports it).
+func (t *Teddy) VerifSIMDCandidate(haystack []byte) (int, uint8) {
+	return t.findSIMD(haystack)
+}
+
+// VerifVerifyBucket is verifyBucket.
+func (t *Teddy) VerifVerifyBucket(haystack []byte, pos, bucket int) (int, int) {
+	return t.verifyBucket(haystack, pos, bucket)
+}
+
+// VerifMasks dumps the fingerprint length, the nibble tables, the bucket table,
+// the patterns and minLen of a fat Teddy.
+func (t *FatTeddy) VerifMasks() (fingerprintLen int, lo, hi [][]byte, buckets [][]int, patterns [][]byte, minLen int) {
+	return int(t.masks.fingerprintLen), verifCopyMasks(&t.masks.loMasks), verifCopyMasks(&t.masks.hiMasks),
+		verifCopyBuckets(t.buckets), verifCopyPatterns(t.patterns), t.minLen
+}
+
+// VerifFindScalar is findScalar on haystack[start:].
+func (t *FatTeddy) VerifFindScalar(haystack []byte, start int) int {
+	return t.findScalar(haystack[start:], start)
+}
+
+// VerifFindMatchScalar is findMatchScalar on haystack[start:].
+func (t *FatTeddy) VerifFindMatchScalar(haystack []byte, start int) (int, int) {
+	return t.findMatchScalar(haystack[start:], start)
+}
+
+// VerifScalarCandidate is findScalarCandidate (pure Go candidate finder).
+func (t *FatTeddy) VerifScalarCandidate(haystack []byte) (int, uint16) {
+	return t.findScalarCandidate(haystack)
+}
+
+// VerifSIMDCandidate is findSIMD (AVX2 assembly when available).
+func (t *FatTeddy) VerifSIMDCandidate(haystack []byte) (int, uint16) {
+	return t.findSIMD(haystack)
+}
+
+// VerifVerifyBucket is verifyBucket.
+func (t *FatTeddy) VerifVerifyBucket(haystack []byte, pos, bucket int) (int, int) {
+	return t.verifyBucket(haystack, pos, bucket)
+}
